@@ -20,7 +20,9 @@ RULE = ('GridSamplingOp: random integer-valued real/complex tensors (2-D up to 5
         'constant volume -> constant slice, wide profile not truncated, axis-aligned = profile-weighted slicing (numpy reference). '
         'Non-trivial = at least one grid point strictly between pixels / a profile wider than one voxel or a non-identity rotation; '
         'distinct by case hash.')
-TRUSTED_BASE = ['aten grid_sampler_{2d,3d} and their backward kernels (contract modelled in Model/GridSample.v, validated by correspondence)',
+TRUSTED_BASE = ['translator harness/translate/sliceproj.py (ast -> Gallina for _find_width and the geometry / weights / normalisation of '
+                'projection_matrix; remaining statements and the GridSamplingOp reshape wrapper pinned textually; fail-closed)',
+                'aten grid_sampler_{2d,3d} and their backward kernels (contract modelled in Model/GridSample.v, validated by correspondence)',
                 'torch sparse COO coalesce / matmul, Rotation.from_matrix/as_matrix (user only)',
                 'python Fraction twin of Model/SliceProj.v in this file (used to flag float-degenerate rows and for Gaussian profiles; '
                 'cross-checked against the Coq model on every rectangular case)']
@@ -871,6 +873,29 @@ def _descr_slice(c):
     if 'prof' in c:
         d['prof'] = c['prof']['kind']
     return d
+
+
+def translate(ctx):
+    """Regenerate Gen/sliceproj_gen.v from SliceProjectionOp.py (and the pinned GridSamplingOp wrapper) and re-check gen_* = Model/SliceProj.v."""
+    from translate import sliceproj as tsp
+    out = vlib.COQ / 'Gen' / 'sliceproj_gen.v'
+    out.parent.mkdir(exist_ok=True)
+    ok, why = tsp.write(out)
+    ctx.extra.setdefault('coverage', {})['translator_available'] = ok
+    ctx.obligations += tsp.N_OBLIGATIONS
+    if not ok:
+        ctx.notes.append(f'translator harness/translate/sliceproj.py failed closed ({why})')
+        ctx.problem('proof', 'gen_sliceproj', None,
+                    f'SliceProjectionOp.py / GridSamplingOp.py is outside the translated subset ({why}): the regenerated obligations '
+                    'gen_* = Model/SliceProj.v cannot be stated')
+        return
+    rc, so, se = vlib.coqc_file(out)
+    if rc == 0:
+        ctx.discharged += tsp.N_OBLIGATIONS
+    else:
+        ctx.problem('proof', 'gen_sliceproj', None,
+                    'regenerated obligation gen_*_ok (SliceProjectionOp.py == Model/SliceProj.v: _find_width / pixel, centre, rotated '
+                    'position / ray / weights / mask / fraction in view / normalisation) no longer proves: ' + (se or so)[-700:])
 
 
 def extra_checks(ctx):
